@@ -268,7 +268,12 @@ def main_wrapper(prop, runner, argv=None):
         replay = None
         if a.replay:
             replay = json.load(open(a.replay))
-        runner(chk, replay)
+        if replay and isinstance(replay.get("scenario"), dict) and "optrace" in replay["scenario"]:
+            # a recorded operation history (harness/optrace.py): re-record it from its seed and validate it again
+            from harness import optrace
+            optrace.replay(chk, replay["scenario"])
+        else:
+            runner(chk, replay)
         if tier == "thorough" and not replay:
             from checks import liveness
             liveness.run(chk)
